@@ -1945,3 +1945,42 @@ VARIANTS += [
              (V, _MV_GATE, _MV_GATE + '\t\tif err == nil && len(pluginConfig) > 0 && !notationsemver.IsValid(verificationPluginMinVersion) {\n\t\t\treturn notation.ErrorVerificationInconclusive{Msg: fmt.Sprintf("plugin minimum version %s is not in valid semver format", verificationPluginMinVersion)}\n\t\t}\n')],
       why='caller shape with the guard weakened'),
 ]
+
+# ---- a recorded failure is never erased (checker/erased.go; seed C03-7) ----
+_NE = 'flagged(results/failure-never-erased)'
+_ID_REC = '\t\tif err != nil {\n\t\t\tauthenticityResult.Error = err\n\t\t\tlogVerificationResult(logger, authenticityResult)\n\t\t}\n'
+_PLUGIN_ID_FAIL = '\t\t\tif !pluginResult.Success {\n\t\t\t\t// find the Authenticity VerificationResult that we already\n'
+_SET_HELPER = '''func setValidationResult(outcome *notation.VerificationOutcome, result *notation.ValidationResult) {
+	for _, r := range outcome.VerificationResults {
+		if r.Type == result.Type {
+			*r = *result
+			return
+		}
+	}
+	outcome.VerificationResults = append(outcome.VerificationResults, result)
+}
+
+'''
+_VI = 'func verifyIntegrity(sigBlob []byte'
+_REV_APPEND = '\t\t\toutcome.VerificationResults = append(outcome.VerificationResults, revocationResult)\n\t\t\tif isCriticalFailure(revocationResult) {'
+VARIANTS += [
+ dict(name='erased-identity-verdict-stored-unconditionally', expect=_NE,
+      edits=[(V, _ID_REC, '\t\tauthenticityResult.Error = err\n\t\tif err != nil {\n\t\t\tlogVerificationResult(logger, authenticityResult)\n\t\t}\n')],
+      why='a trust-store failure recorded under log is cleared by a passing identity check'),
+ dict(name='erased-plugin-success-clears-authenticity', expect=_NE,
+      edits=[(V, _PLUGIN_ID_FAIL, '\t\t\tif pluginResult.Success {\n\t\t\t\tfor _, r := range outcome.VerificationResults {\n\t\t\t\t\tif r.Type == trustpolicy.TypeAuthenticity {\n\t\t\t\t\t\tr.Error = nil\n\t\t\t\t\t}\n\t\t\t\t}\n\t\t\t}\n' + _PLUGIN_ID_FAIL)],
+      why='the plugin verdict replaces the trust-store verdict'),
+ dict(name='erased-revocation-result-set-in-place', expect=_NE,
+      edits=[(V, _REV_APPEND, '\t\t\tsetValidationResult(outcome, revocationResult)\n\t\t\tif isCriticalFailure(revocationResult) {'), (V, _VI, _SET_HELPER + _VI)],
+      why='update-in-place helper overwrites a recorded result as a whole (seed C03-7 shape)'),
+ dict(name='erased-results-list-restarted', expect=_NE,
+      edits=[(V, _REV_APPEND, '\t\t\toutcome.VerificationResults = append([]*notation.ValidationResult{}, revocationResult)\n\t\t\tif isCriticalFailure(revocationResult) {')],
+      why='the list is restarted: earlier results dropped'),
+ dict(name='benign-erased-record-helper', expect='silent',
+      edits=[(V, _ID_REC, '\t\tif err != nil {\n\t\t\trecordFailure(authenticityResult, err)\n\t\t\tlogVerificationResult(logger, authenticityResult)\n\t\t}\n'),
+             (V, _VI, 'func recordFailure(r *notation.ValidationResult, err error) {\n\tr.Error = err\n}\n\n' + _VI)],
+      why='helper stores its parameter; every call site passes a tested error'),
+ dict(name='benign-erased-revocation-append-through-local', expect='silent',
+      edits=[(V, _REV_APPEND, '\t\t\tresults := append(outcome.VerificationResults, revocationResult)\n\t\t\toutcome.VerificationResults = results\n\t\t\tif isCriticalFailure(revocationResult) {')],
+      why='append through a local'),
+]
